@@ -61,7 +61,7 @@ void harness (void)
   DBusList *ln[3] = { calloc (1, sizeof (DBusList)), calloc (1, sizeof (DBusList)), calloc (1, sizeof (DBusList)) };
   struct refq q, q0; struct refev ev[REFEV_MAX]; int nev = 0;
   int n_before[VF_NCONN], i, j, c, live0, want;
-  DBusError err; dbus_uint32_t res = 99, flags = vf_u32 (); dbus_bool_t ok;
+  DBusError err; dbus_uint32_t res = 99, flags = vf_u32 (); dbus_bool_t ok; int f21 = 0;
 
   svcp = calloc (1, sizeof (BusService)); svc_name = malloc (4);
   VF_ASSUME (svcp && svc_name && ow[0] && ow[1] && ow[2] && ln[0] && ln[1] && ln[2]);
@@ -129,6 +129,45 @@ void harness (void)
     }
   else
     VF_WITNESS_OPT ("operation completed (fault index beyond its allocations)");
+#ifdef LATE
+  /* the operation itself succeeded, but a LATER step of the same transaction (building or staging the method reply in the driver) fails for lack
+   * of memory: bus_dispatch cancels the transaction, and "all previously observable state is exactly as it was" must hold for the name queue too */
+  if (ok)
+    {
+      int pos0 = refq_find (&q0, c);
+      vf_transaction_cancel ();
+      /* representation invariant after the roll-back: every owner linked in the queue is alive (holds the queue's reference) */
+      { DBusString nm_; BusService *s_; DBusList *l_; int k_ = 0; _dbus_string_init_const (&nm_, "a.b"); s_ = bus_registry_lookup (&reg, &nm_);
+        if (s_) for (l_ = _dbus_list_get_first_link (&s_->owners); l_ != 0 && k_ < 4; l_ = _dbus_list_get_next_link (&s_->owners, l_), k_++)
+          if (((BusOwner *) l_->data)->refcount < 1) f21 = 1;
+        VF_FINDING (!f21, "F21-restored-owner-loses-its-queue-reference"); }
+      if (OP == 0 && pos0 > 0 && !same_queue (&q0))
+        {
+          struct refq qx = q0; int ar = (flags & 1) != 0, dnq = (flags & 4) != 0;
+          if (flags & 2) { refq_remove_at (&qx, pos0); refq_insert_at (&qx, 1, c, ar, dnq); }
+          else { qx.ar[pos0] = ar; qx.dnq[pos0] = dnq; }
+          VF_ASSERT (same_queue (&qx), "after cancelling, the queue differs from before at most in the already-queued requester's own entry");
+          VF_FINDING (0, "F8-queued-requester-update-not-undone-on-oom");
+        }
+      else if (OP == 1 && pos0 > 0)
+        {
+          /* F20: a queued (non-primary) owner that releases the name is unlinked at once, without an undo hook */
+          struct refq qx = q0; refq_remove_at (&qx, pos0);
+          VF_ASSERT (same_queue (&qx) || same_queue (&q0), "after cancelling, the queue differs from before at most by the releasing waiter's own entry");
+          VF_FINDING (same_queue (&q0), "F20-queued-release-not-undone-on-cancel");
+          VF_WITNESS_OPT ("a queued waiter released the name and the transaction was cancelled");
+        }
+      else
+        {
+          VF_ASSERT (same_queue (&q0), "after cancelling a completed step, the owner queue (order and flags) is exactly as before");
+          /* the counters and the allocation balance are consequences of F21 where it strikes (the owner block is freed and its owned-name entry dropped) */
+          for (i = 0; i < VF_NCONN; i++) VF_ASSERT (f21 || (vf_conn[i]->n_owned == n_before[i] && vf_conn[i]->refs == 1), "owned-name counters and connection references are as before");
+          VF_ASSERT (f21 || vf_live_blocks == live0, "nothing is leaked (allocation balance restored)");
+        }
+      VF_WITNESS_OPT ("a completed step was cancelled by a later failure of the same transaction");
+      goto vf_end;
+    }
+#endif
   vf_transaction_commit ();
 #if OP == 0
   want = ref_request_name (&q, c, flags, ev, &nev, 1);
@@ -137,5 +176,6 @@ void harness (void)
 #endif
   VF_ASSERT ((int) res == want || OP == 2, "result equals the reference result");
   VF_ASSERT (same_queue (&q), "final queue equals the reference queue");
+vf_end:
   VF_WITNESS ("end of harness reached");
 }
